@@ -397,6 +397,11 @@ structure WithdrawFacts (W U : Nat) (m m' : Market) (w : WithdrawParams) (pin : 
   impact : m'.swapImpact = m.swapImpact
   supply : m'.supply + w.amount = m.supply
   amount_pos : w.amount ≠ 0
+  /-- the validations ran on the pools AFTER the withdrawal -/
+  reserve_long : validateReserve W U m' w.prices true = .ok ()
+  reserve_short : validateReserve W U m' w.prices false = .ok ()
+  maxpnl : validateMaxPnl W U m' w.prices .maxAfterWithdrawal .maxAfterWithdrawal = .ok ()
+  frame : m' = { m with primary := m'.primary, fee := m'.fee, viSwaps := m'.viSwaps, supply := m'.supply }
 
 theorem withdraw_spec {W U : Nat} {m m' : Market} {w : WithdrawParams} {pin : PerpIn} {r : WithdrawReport}
     (h : withdraw W U m w pin = (m', .ok r)) : WithdrawFacts W U m m' w pin r := by
@@ -460,11 +465,14 @@ theorem withdraw_spec {W U : Nat} {m m' : Market} {w : WithdrawParams} {pin : Pe
                                 obtain ⟨j1, j2, j3⟩ := market_applyDelta_spec hm4
                                 split at h
                                 · cases h
-                                · split at h
+                                · rename_i hr1
+                                  split at h
                                   · cases h
-                                  · split at h
+                                  · rename_i hr2
+                                    split at h
                                     · cases h
-                                    · split at h
+                                    · rename_i hmp
+                                      split at h
                                       · cases h
                                       · rename_i sup hsup
                                         obtain ⟨hle, hsup⟩ := checkedSub_eq hsup
@@ -477,7 +485,7 @@ theorem withdraw_spec {W U : Nat} {m m' : Market} {w : WithdrawParams} {pin : Pe
                                         have e4s : m4.supply = m.supply := by rw [j3, k3]
                                         have k1' : (m3.primary.long : Int) = m.primary.long + dL := k1
                                         have k2' : m3.primary.short = m.primary.short := k2
-                                        refine ⟨⟨la0, sa0, hout, by omega, by omega⟩, ?_, ?_, ?_, ?_, ?_, ?_, hamt⟩
+                                        refine ⟨⟨la0, sa0, hout, by omega, by omega⟩, ?_, ?_, ?_, ?_, ?_, ?_, hamt, hr1, hr2, hmp, ?_⟩
                                         · show m4.primary.long + feesL.receiver + la = m.primary.long
                                           omega
                                         · show m4.primary.short + feesS.receiver + sa = m.primary.short
@@ -489,6 +497,8 @@ theorem withdraw_spec {W U : Nat} {m m' : Market} {w : WithdrawParams} {pin : Pe
                                         · exact e4i
                                         · show sup + w.amount = m.supply
                                           omega
+                                        · show ({ m4 with supply := sup } : Market) = _
+                                          rw [j3, k3]
 
 /-- what a successful deposit did: the two sides are two `executeDeposit` runs at the same pool
 value (maximised, `MaxAfterDeposit`) and supply, then the sum is minted. -/
